@@ -68,7 +68,7 @@ var errnos = map[string]syscall.Errno{
 	"EIO": syscall.EIO, "ENOSPC": syscall.ENOSPC, "EACCES": syscall.EACCES, "EPERM": syscall.EPERM,
 	"EMFILE": syscall.EMFILE, "ENOENT": syscall.ENOENT, "EROFS": syscall.EROFS, "EDQUOT": syscall.EDQUOT,
 	"EBUSY": syscall.EBUSY, "EINTR": syscall.EINTR, "ENOMEM": syscall.ENOMEM, "EISDIR": syscall.EISDIR,
-	"EEXIST": syscall.EEXIST, "ENFILE": syscall.ENFILE,
+	"EEXIST": syscall.EEXIST, "ENFILE": syscall.ENFILE, "EAGAIN": syscall.EAGAIN, "EPIPE": syscall.EPIPE, "EBADF": syscall.EBADF, "EFBIG": syscall.EFBIG,
 }
 
 func errnoOf(s string) syscall.Errno {
